@@ -28,7 +28,7 @@ CONFIGS = {
     "narrow": ("iso-8859-1", "iso-8859-1", "narrow", ["a", "b", " ", "\n", "é"]),
     # a control character (no column of its own) among ASCII and wide characters; a double-byte encoding whose trail bytes reach into ASCII (GBK: 丂 = 81 40)
     "utf8ctl": ("utf-8", "utf-8", "utf8", ["a", " ", "\t", "你"]),
-    "gbk": ("gbk", "gbk", "wide", ["a", " ", "\n", "丂"]),
+    "gbk": ("GBK", "gbk", "wide", ["a", " ", "\n", "丂"]),  # (the name spelt as locale.getpreferredencoding() reports it)
 }
 SHORT = {"utf8ctl": 4, "gbk": 4}
 
